@@ -287,13 +287,33 @@ func (w *World) stepBlock(s *Step) {
 	}
 	adds := make([]H, nAdds, nAdds+2)
 	leaves := make([]u.Leaf, nAdds, nAdds+2)
-	// Every added leaf gets a fresh hash: the checks assume that leaf hashes are
-	// unique over the whole history and differ from every node hash (they are
-	// digests; the library keys several maps by hash).  A leaf that repeats the
-	// hash of a deleted leaf or carries the bytes of an internal node is treated
-	// like a hash collision and is not generated (DESIGN.md section 10).
+	// Added leaves are distinct from every live leaf.  In a fifth of the runs one
+	// may repeat the hash of a deleted leaf (of this block or an earlier one).
+	// What is never generated: two live leaves with the same hash, or a leaf that
+	// carries the bytes of an internal node or shares a long prefix with one —
+	// leaf hashes are digests and the library keys several maps by hash, so that
+	// is treated like a hash collision (DESIGN.md section 10).
+	ar := SubRng(s.Seed, "addkind")
+	var deadPool []H
+	if w.sc.ReAdd && ar.Pct(40) {
+		for i, h := range pre.Leaves {
+			if !pre.Alive[i] && !pre.IsLive(h) {
+				deadPool = append(deadPool, h)
+			}
+		}
+		deadPool = append(deadPool, dels...)
+	}
+	used := map[H]bool{}
 	for i := range adds {
-		adds[i] = w.newLeaf()
+		h := w.newLeaf()
+		if len(deadPool) > 0 && ar.Pct(30) {
+			if c := deadPool[ar.Intn(len(deadPool))]; !used[c] {
+				h = c // the hash of a leaf that was deleted (by this block or earlier) comes back
+				w.stats.Reach["added_leaf_repeats_deleted_hash"]++
+			}
+		}
+		used[h] = true
+		adds[i] = h
 		leaves[i] = u.Leaf{Hash: adds[i]}
 	}
 	b := &Block{ID: len(w.blocks), Parent: parent.ID, Height: parent.Height + 1, Seed: s.Seed,
